@@ -213,7 +213,7 @@ def run(ctx):
                                                 'loss': {str(lk): loss} if loss else {}, 'fault': None})
         ctx.extra['exhaustive_subspace'] = f'{len(scripts)} scripts: sizes 0..4 x discovery answer x single lossy request (loss 0..retry) x retry 1..3 x marker'
         scripts = [s for i, s in enumerate(scripts) if i % ctx.nshards == ctx.shard]
-    for _ in range(ctx.n(900, 40000)):
+    for _ in range(ctx.n(900, 400000)):
         scripts.append(gen_script(rng))
     for sc in scripts:
         R, S = execute(sc)
